@@ -30,6 +30,52 @@ EXPLANATION = (
 )
 
 
+def _is_name(n, name):
+    return isinstance(n, ast.Name) and n.id == name
+
+
+def _group_members_guarded(f, mname: str, cond_facts):
+    """`for <mname> in D.values()` (or `for k, <mname> in D.items()`): True when every element ever put into a list of D was
+    inserted on a path that had established `<elt>.rows`; False when some insertion is unguarded; None when <mname> is not such
+    a group; raises AnalysisError when the way D is filled is not one of the recognised forms."""
+    outer = [n for n in walk_shallow(f.node) if isinstance(n, ast.For) and any(isinstance(t, ast.Name) and t.id == mname for t in ast.walk(n.target))]
+    if len(outer) != 1 or not (isinstance(outer[0].iter, ast.Call) and isinstance(outer[0].iter.func, ast.Attribute) and outer[0].iter.func.attr in ("values", "items") and isinstance(outer[0].iter.func.value, ast.Name)):
+        return None
+    D = outer[0].iter.func.value.id
+    inserts = []  # (site, element expr)
+    for n in walk_shallow(f.node):
+        if isinstance(n, ast.Call) and isinstance(n.func, ast.Attribute) and n.func.attr == "append" and len(n.args) == 1:
+            r = n.func.value
+            if (isinstance(r, ast.Call) and isinstance(r.func, ast.Attribute) and r.func.attr == "setdefault" and _is_name(r.func.value, D)) or (isinstance(r, ast.Subscript) and _is_name(r.value, D)):
+                inserts.append((n, n.args[0]))
+        if isinstance(n, ast.Assign) and any(isinstance(t, ast.Subscript) and _is_name(t.value, D) for t in n.targets):
+            if isinstance(n.value, ast.List) and all(isinstance(e, ast.Name) for e in n.value.elts):
+                for e in n.value.elts:
+                    inserts.append((n, e))
+            else:
+                raise AnalysisError(f"{f.short}: group dict '{D}' is filled by '{norm(n)[:60]}': form not understood")
+    if not inserts:
+        raise AnalysisError(f"{f.short}: how the group dict '{D}' is filled is not understood")
+    for site, elt in inserts:
+        if not isinstance(elt, ast.Name):
+            raise AnalysisError(f"{f.short}: element '{norm(elt)}' put into group dict '{D}' is not a local: form not understood")
+        for p_ in paths(f, (0, 1), exc_edges=False):
+            hit = next((i for i, e in enumerate(p_.events) if e.kind == "stmt" and (e.node is site or any(x is site for x in walk_shallow(e.node)))), None)
+            if hit is None:
+                continue
+            ok = False
+            for e in p_.events[:hit]:
+                if e.kind == "cond":
+                    for t, v in cond_facts(e.node, e.val):
+                        if norm(t).replace(" ", "") in (f"{elt.id}.rows", f"len({elt.id}.rows)") and v:
+                            ok = True
+                if e.kind == "iter" and e.val[0] == "next" and any(isinstance(t, ast.Name) and t.id == elt.id for t in ast.walk(e.node.target)):
+                    ok = False
+            if not ok:
+                return False
+    return True
+
+
 def run(repo: Repo, L: Ledger, tier: str):
     L.rule("R1", "append_scaffold call sites pass a gap flowing from self.default_gap")
     L.rule("R2", "CLI: default_gap=Gap(200, 'scaffold')")
@@ -68,7 +114,7 @@ def run(repo: Repo, L: Ledger, tier: str):
                 srcs = [actual]
             ok = bool(srcs) and all(norm(s) == "self.default_gap" for s in srcs)
             L.check(ok, "R1", inst, "gap argument is the configured join gap", f"gap argument '{norm(actual)}' is defined as {[norm(s) for s in srcs]}, not the configured join gap self.default_gap", f.loc(c))
-    L.floor("R1", "append_scaffold call sites", n_sites, 2)
+    L.floor("R1", "append_scaffold call sites", n_sites, 1)
 
     # ---- R6: a piece without rows is never appended with the join gap (append_scaffold adds the gap whenever the
     # receiver already holds rows: an empty piece would leave a trailing gap / two consecutive gaps)
@@ -99,20 +145,35 @@ def run(repo: Repo, L: Ledger, tier: str):
                     continue
                 n_p += 1
                 guarded = False
+                # the piece as this path computed it (locals that merely hold the scaffold / its to_scaffold() are followed)
+                from ..util import resolve_on_path as _rop
+
+                i_c = next(i for i, e in enumerate(p_.events) if e.kind == "stmt" and (e.node is c or any(x is c for x in walk_shallow(e.node))))
+                root_p = _rop(p_, i_c, piece)
+                while isinstance(root_p, ast.Call | ast.Attribute):
+                    root_p = root_p.func if isinstance(root_p, ast.Call) else root_p.value
+                if not isinstance(root_p, ast.Name):
+                    raise AnalysisError(f"{inst}: appended piece '{norm(piece)}' is not derived from a local on every path")
+                rid = root_p.id
                 for e in p_.events:
                     if e.kind == "stmt" and (e.node is c or any(x is c for x in walk_shallow(e.node))):
                         break
                     if e.kind == "cond":
                         for t, v in cond_facts(e.node, e.val):
-                            if norm(t).replace(" ", "") in (f"{root.id}.rows", f"len({root.id}.rows)") and v:
+                            if norm(t).replace(" ", "") in (f"{rid}.rows", f"len({rid}.rows)") and v:
                                 guarded = True
-                    if e.kind == "iter" and e.val[0] == "next" and isinstance(e.node.target, ast.Name) and e.node.target.id == root.id:
+                    if e.kind == "iter" and e.val[0] == "next" and isinstance(e.node.target, ast.Name) and e.node.target.id == rid:
                         guarded = False  # a new element: earlier facts were about another piece
                         it_ = e.node.iter
                         if isinstance(it_, ast.GeneratorExp | ast.ListComp) and len(it_.generators) == 1 and isinstance(it_.generators[0].target, ast.Name) and isinstance(it_.elt, ast.Name) and it_.elt.id == it_.generators[0].target.id:
                             gv = it_.generators[0].target.id
                             if any(norm(t).replace(" ", "") in (f"{gv}.rows", f"len({gv}.rows)") and v for c_ in it_.generators[0].ifs for t, v in cond_facts(c_, True)):
                                 guarded = True  # the loop runs over a filtered view: only pieces that have rows
+                        elif isinstance(it_, ast.Name):
+                            # the loop runs over a group list taken from a dict of lists: every insertion into those lists
+                            # must be of a piece already known to have rows
+                            if _group_members_guarded(f, it_.id, cond_facts) is True:
+                                guarded = True
                 if not guarded and bad_path is None:
                     bad_path = p_
             L.check(
